@@ -114,7 +114,80 @@ func vh_C06_execute() {
 	}
 }
 
-var vhRegistry = map[string]func(){"vh_C06_unwind": vh_C06_unwind, "vh_C06_execute": vh_C06_execute}
+// The interpreter stays usable: after an evaluation ended by an uncaught panic,
+// a further (panic-free) evaluation on the same interpreter returns no error.
+func vh_C06_reuse() {
+	vhResetClock()
+	vhStopAt = -1
+	i := vhNewInterp()
+	mk := func(doPanic bool) *Program {
+		root := &node{interp: i}
+		root.start = root
+		root.exec = func(f *frame) bltn {
+			vhSteps++
+			if doPanic {
+				panic("boom")
+			}
+			return nil
+		}
+		return &Program{pkgName: "main", root: root}
+	}
+	first := vNondetBool("firstPanics")
+	_, err1 := i.Execute(mk(first))
+	vReach("C06.reuse")
+	vAssert("C06.execute.first", (err1 != nil) == first)
+	before := vhSteps
+	_, err2 := i.Execute(mk(false))
+	vAssert("C06.execute.usable-after-panic", err2 == nil && vhSteps == before+1)
+}
+
+// "defer p(x); x = 2": the deferred call receives the value x had at the defer
+// statement. Real code: the call generator (defer branch), genFunctionWrapper
+// and its MakeFunc body, genValue/valueGenerator, runCfg's unwind.
+var vhSeenArg int64
+
+func vh_C06_defer_args() {
+	vhResetClock()
+	vhStopAt = -1
+	i := vhNewInterp()
+	intT := &itype{cat: intT, rtype: vTypeOfKind(int(reflect.Int))}
+	// func p(v int) { <reads v> }
+	body := &node{interp: i}
+	body.start = body
+	body.exec = func(f *frame) bltn {
+		vhSeenArg = f.data[0].Int()
+		vhSteps++
+		return nil
+	}
+	blk := &node{interp: i, start: body}
+	def := &node{interp: i, kind: funcDecl, typ: &itype{cat: funcT, arg: []*itype{intT}, rtype: reflect.TypeOf(func(int) {})}, types: []reflect.Type{intT.rtype}}
+	def.child = []*node{{interp: i}, {interp: i, ident: "p"}, {interp: i}, blk}
+	def.val = def
+	// the statement "defer p(x)" in a function whose frame slot 0 holds x
+	c0 := &node{interp: i, kind: identExpr, findex: notInFrame, val: def, typ: def.typ}
+	x := &node{interp: i, kind: identExpr, findex: 0, typ: intT}
+	deferN := &node{interp: i, kind: deferStmt}
+	callN := &node{interp: i, kind: callExpr, anc: deferN, child: []*node{c0, x}, typ: def.typ}
+	deferN.child = []*node{callN}
+	c0.anc, x.anc = callN, callN
+	call(callN)
+	f := newFrame(i.frame, 1, i.runid())
+	f.data[0] = reflect.New(intT.rtype).Elem()
+	a, b := vNondetInt64("atDefer"), vNondetInt64("later")
+	f.data[0].SetInt(a)
+	vReach("C06.defer.args")
+	callN.exec(f)      // defer p(x)
+	f.data[0].SetInt(b) // x = b
+	// the function returns: runCfg unwinds the frame
+	end := &node{interp: i}
+	end.exec = func(*frame) bltn { return nil }
+	runCfg(end, f, end, nil)
+	vAssert("C06.defer.runs-once", vhSteps == 1)
+	vKnown("C06.defer-args-alias-frame-slot", a != b)
+	vAssert("C06.defer.args-fixed", vhSeenArg == a)
+}
+
+var vhRegistry = map[string]func(){"vh_C06_unwind": vh_C06_unwind, "vh_C06_execute": vh_C06_execute, "vh_C06_reuse": vh_C06_reuse, "vh_C06_defer_args": vh_C06_defer_args}
 
 var vhIntVars = map[string]*int{"vhMaxSteps": &vhMaxSteps, "vhNExec": &vhNExec}
 
